@@ -149,9 +149,11 @@ def construct_event(mod, name, fields, data, form="int", itype=None):
     if fields.get("dgroup") is not None:
         kw["device_group"] = fields["dgroup"]
     if name == "OccupancyEvent":
-        if form == "obj":
-            kw["data"] = cls.EventData(movement=bool(data & 1), occupied=bool(data & 2), repeat=bool(data & 4),
-                                       sensor_type="movement" if data & 8 else "presence")
+        if form in ("obj", "objlit"):
+            word = "movement" if data & 8 else "presence"
+            if form == "obj":
+                word = "".join(list(word))          # an equal string built at run time (as from JSON, a pickle, user input) - not the interned literal
+            kw["data"] = cls.EventData(movement=bool(data & 1), occupied=bool(data & 2), repeat=bool(data & 4), sensor_type=word)
         else:
             kw["data"] = data
     elif name in ("LightEvent", "UnknownEvent"):
